@@ -67,3 +67,38 @@ Proof.
   rewrite Forall_forall. intros c Hc. apply repeat_spec in Hc. subst c.
   split; [exact gen_call_ok|exact gen_call_own_ok].
 Qed.
+
+(* ---- the broadcast path --------------------------------------------------------------------- *)
+
+Lemma gen_broadcast_ok :
+  well_bracketed broadcast_call_skeleton = true /\
+  well_bracketed (client_prefix ++ broadcast_allsites) = true.
+Proof. vm_compute. split; reflexivity. Qed.
+
+Lemma gen_broadcast_own_ok : own_ok broadcast_call_skeleton.
+Proof.
+  unfold own_ok. intros re t k s l s' l' (Hl & Ht & Hf & Hp) H.
+  destruct s as [lk tidc tb fb peer lg]. cbn in Hl, Ht, Hf, Hp. subst lk tb fb peer.
+  cbn in H. rewrite Nat.eqb_refl in H. cbn in H.
+  inversion H; subst. split.
+  - repeat split.
+  - eexists. split; [reflexivity|]. split; reflexivity.
+Qed.
+
+(* any mix of unicast and broadcast calls *)
+Lemma gen_good_program_mixed : forall prog : list (list bool),
+  good_program (map (map (fun b : bool => if b then broadcast_call_skeleton else call_skeleton)) prog).
+Proof.
+  intro prog. unfold good_program. rewrite Forall_forall. intros p Hp.
+  apply in_map_iff in Hp. destruct Hp as (bs & <- & _).
+  rewrite Forall_forall. intros c Hc. apply in_map_iff in Hc. destruct Hc as ([|] & <- & _).
+  - split; [exact (proj1 gen_broadcast_ok)|exact gen_broadcast_own_ok].
+  - split; [exact gen_call_ok|exact gen_call_own_ok].
+Qed.
+
+Lemma good_program_wb : forall P, good_program P -> wb_program P.
+Proof.
+  intros P HP. unfold wb_program, progs_wb. rewrite Forall_forall. intros p Hp. rewrite Forall_forall. intros c Hc.
+  unfold good_program in HP. rewrite Forall_forall in HP. pose proof (HP p Hp) as H. rewrite Forall_forall in H.
+  apply H; auto.
+Qed.
